@@ -86,7 +86,8 @@ def rule_K1(ctx: Ctx) -> None:
         idx_set = next((i for i, st in enumerate(tr.body) if s is st), None)
         if idx_read is None or idx_set is None or idx_set <= idx_read:
             ok = False
-    ctx.judge(f, ok, {"did_load_local_true_sites": len(sets)},
+    # no `did_load_local = True` statement at all: the flag is produced in a form this rule does not read (a helper's result); K7 decides it
+    ctx.judge(f, ok if sets else None, {"did_load_local_true_sites": len(sets)},
               "did_load_local = True only in the try body after the successful read",
               "a failed read would be recorded as loaded: the regenerated dataset is never saved (or a broken file kept)")
     # handler falls through to the generate branch: output stays None
